@@ -33,6 +33,13 @@ import (
 // a machine parked under an older version finds itself at a node its new
 // specification does not have.
 func counterSpec(ver int) *core.Spec {
+	if ver == 99 {
+		// a specification that cannot be had: its action does not compile;
+		// the operation that brings it fails
+		return &core.Spec{Name: "counter", Version: "v99", Nodes: map[string]*core.Node{
+			"start": {ActionSource: &core.ActionSource{Interpreter: "ecmascript", Source: "this is not ( a script"},
+				Branches: &core.Branches{Type: "bindings", Branches: []*core.Branch{{Target: "start"}}}}}}
+	}
 	label := fmt.Sprintf("v%d", ver)
 	slim := false
 	handling := false
@@ -150,12 +157,26 @@ func genCOp(t *rapid.T, label string, existingStateOK, recreateOK bool) COp {
 	}
 	op := COp{Kind: rapid.SampledFrom(kinds).Draw(t, label+".kind"), Mid: rapid.SampledFrom(c15mids).Draw(t, label+".mid")}
 	op.Ver = rapid.SampledFrom([]int{1, 2, 3, 1, 2, 3, 11, 12, 13, 21, 22, 31, 32}).Draw(t, label+".ver")
+	if (op.Kind == "create" || op.Kind == "setSpec") && rapid.IntRange(0, 11).Draw(t, label+".bad") == 4 {
+		op.Ver = 99
+	}
 	if op.Kind == "setState" || (op.Kind == "create" && rapid.Bool().Draw(t, label+".ws")) {
 		op.State = true
 		op.Count = float64(rapid.IntRange(0, 50).Draw(t, label+".count"))
 		op.Node = rapid.SampledFrom([]string{"start", "start", "parked"}).Draw(t, label+".node")
 	}
 	return op
+}
+
+// loneFailing: a captain message with an operation that fails holds that
+// operation only.
+func loneFailing(ops []COp) []COp {
+	for _, op := range ops {
+		if op.Ver == 99 && op.Kind != "delete" && op.Kind != "setState" {
+			return []COp{op}
+		}
+	}
+	return ops
 }
 
 func genCrewHistory(t *rapid.T) CrewHistory {
@@ -191,6 +212,11 @@ func genCrewHistory(t *rapid.T) CrewHistory {
 			}
 			r.Msg = m
 		}
+		// an operation that fails ends the captain's message there; which
+		// of its other updates were applied before depends on the order
+		// the captain happens to take them in: such a message holds that
+		// one operation only
+		r.Captain = loneFailing(r.Captain)
 		// re-creation means creating the machine again (with a spec):
 		// within a round, what follows a delete of a machine is a create
 		for _, ops := range [][]COp{r.Direct, r.Captain} {
@@ -230,6 +256,15 @@ func stateFor(op COp) *core.State {
 }
 
 func applyDirect(ctx context.Context, c *sio.Crew, op COp) error {
+	if op.Ver == 99 && op.Kind != "delete" && op.Kind != "setState" {
+		// (the operation is refused)
+		if op.Kind == "create" {
+			c.SetMachine(ctx, op.Mid, specSourceFor(op.Ver), stateFor(op))
+		} else {
+			c.SetMachine(ctx, op.Mid, specSourceFor(op.Ver), nil)
+		}
+		return nil
+	}
 	switch op.Kind {
 	case "create":
 		return c.SetMachine(ctx, op.Mid, specSourceFor(op.Ver), stateFor(op))
